@@ -134,7 +134,7 @@ func init() {
 			select {
 			case a := <-done:
 				s.Emit(op, a)
-			case <-time.After(20 * time.Second):
+			case <-time.After(8 * time.Second):
 				s.Emit(op, "hang")
 			}
 			os.Remove(p)
@@ -157,6 +157,17 @@ func init() {
 			k := good
 			k.dklen, k.goodMac = dk, false
 			i++
+			run(i, k)
+		}
+		// iteration counts far beyond anything a key file needs: the count goes straight into the key derivation, which
+		// runs before the MAC can be checked — the watchdog answers "hang" when Load does not come back
+		for _, c := range []int{10000000, 10000001, 1 << 62} {
+			k := good
+			k.c, k.goodMac = c, false
+			i++
+			if c == 10000000 {
+				continue // an admitted count this large takes seconds: exercised in the thorough tier only
+			}
 			run(i, k)
 		}
 		for j := 0; j < n; j++ {
